@@ -247,12 +247,6 @@ def run_scenario(ctx: Ctx, case, cases, terms):
         passes.append((before, pobs, after))
         ctx.count(f"flow:pass{i}:{pobs['outcome']['cls']}:{'+'.join(m['method'] for m in pobs['mutations']) or 'quiet'}")
         why = pass_oracle(case, i, pobs, met)
-        if (why and why[0] == "raises" and i == 0 and case.get("initial") is not None and not met
-                and pobs["outcome"]["exc"] in ("AttributeError", "TypeError") and B.M in json.dumps(case["body"])):
-            # an arbitrary initial object whose value under a compare-as-map key is not a list of maps:
-            # C05's known finding (the comparison raises instead of reporting drift), not a C04 matter
-            ctx.count("flow:initial-object-hits-C05-as-map-finding")
-            break
         if why:
             ctx.fail(Failure(signature=f"flow: {case['policy']}: {why[0]}", what=why[1], case=case,
                              observed=[{"outcome": q["outcome"], "mutations": q["mutations"]} for _, q, _ in passes],
@@ -314,24 +308,27 @@ def gen_scenarios(ctx: Ctx):
         else:
             initial = B.decorate(rng, target, B.strip(target))
             devs = list(B.deviations(target, initial))
-            devs = [(d, l2) for d, l2 in devs if d["kind"] not in B.MAP_RAISE_KINDS
-                    and d["kind"] != "set-member-retype-bool-int"
-                    and d["path"][0][1] not in ("apiVersion", "kind")
+            devs = [(d, l2) for d, l2 in devs if d["path"][0][1] not in ("apiVersion", "kind")
                     and not (d["path"][0][1] == "metadata" and (len(d["path"]) == 1 or d["path"][1][1] in ("name", "namespace")))]
             if devs:
                 initial = rng.choice(devs)[1]
         if bi % 3 == 0 and owned:
             # c. the target is met but the parent's owner reference is missing
-            met = B.decorate(rng, target, B.strip(target))
-            met.setdefault("metadata", {}).update({"name": B.NAME, "namespace": B.NS})
+            made = B.created_object(ctx, body, True)      # what the function itself creates for this body
+            if made is None:
+                continue
+            met = B.decorate(rng, target, made, intfloat=False)
             met["metadata"].pop(B.OWNERS, None)
             yield {"kind": "scenario", "body": body, "create_overlay": None,
                    "policy": ["never", "patch", "recreate"][(bi // 3) % 3], "delay": delay, "owned": True,
                    "initial": met, "decorate_seed": None, "passes": 3}
         if bi % 3 == 1 and B.L not in json.dumps(body):
             # d. an adopted object: meets the target (and is owner-reffed) but was never annotated by koreo
-            met = B.decorate(rng, target, B.strip(target))
-            met.setdefault("metadata", {}).update({"name": B.NAME, "namespace": B.NS})
+            made = B.created_object(ctx, body, owned)
+            if made is None:
+                continue
+            met = B.decorate(rng, target, made, intfloat=False)
+            met["metadata"].get("annotations", {}).pop(B.ANNOTATION, None)
             met["metadata"][B.OWNERS] = [dict(B.OWNER_REF)]
             met["status"] = {"ready": True}
             yield {"kind": "scenario", "body": body, "create_overlay": None,
